@@ -22,6 +22,7 @@ mod slow;
 mod util;
 mod val;
 mod wire;
+mod feat;
 
 use std::io::Write;
 use util::{json_escape, Out};
